@@ -18,6 +18,10 @@ import (
 
 const c08pass = "Secr3t"
 
+// c08old is the password the server was configured with before c08pass in the batches whose server went
+// through Start / Stop / SetRequirePass(c08pass) / Start (see c08server). Everywhere it is just a wrong password.
+const c08old = "0ld-Secr3t"
+
 type c08sym struct {
 	Name string
 	Req  resp.Value
@@ -70,6 +74,7 @@ func c08alphabets() {
 	auth1("AUTH <P with CRLF inside>", resp.BulkS("Sec\r\nr3t"), false)
 	auth1("AUTH <P+CRLF>", resp.BulkS(c08pass+"\r\n"), false)
 	auth1("AUTH <space+P>", resp.BulkS(" "+c08pass), false)
+	auth1("AUTH <previous password>", resp.BulkS(c08old), false)
 	full = append(full, c08sym{Name: "AUTH (no argument)", Req: resp.Cmd("AUTH"), IsAuth: true, MustFail: true})
 	full = append(full, c08sym{Name: "AUTH a b c", Req: resp.Cmd("AUTH", "default", c08pass, "x"), IsAuth: true, DontCare: true})
 	two := func(u string, p resp.Value, kind string) {
@@ -210,16 +215,36 @@ func (w c08word) describe() any {
 	return map[string]any{"connections": w.Conns, "word": steps}
 }
 
-func c08server() *redis.Server {
+// c08changed: every second batch of cases runs on a server whose password was changed across a restart
+// (Start with c08old, Stop, SetRequirePass(c08pass), Start); the other batches on a freshly started one.
+func c08changed(idx int) bool { return (idx/c08chunk)%2 == 1 }
+
+const c08chunk = 400
+
+func c08server(idx int) *redis.Server {
 	c08.once.Do(func() {
 		srv := redis.NewServer()
-		srv.SetRequirePass(c08pass)
+		first := c08pass
+		if c08changed(idx) {
+			first = c08old
+		}
+		srv.SetRequirePass(first)
 		for attempt := 0; attempt < 10; attempt++ {
 			c08.port = freePort()
 			srv.SetPort(c08.port)
 			if err := srv.Start(); err == nil {
 				c08.srv = srv
+				break
+			}
+		}
+		if c08.srv != nil && c08changed(idx) {
+			if err := srv.Stop(); err != nil {
+				c08.srv = nil
 				return
+			}
+			srv.SetRequirePass(c08pass)
+			if err := srv.Start(); err != nil {
+				c08.srv = nil
 			}
 		}
 	})
@@ -230,7 +255,7 @@ func c08run(idx int) run.Result {
 	var res run.Result
 	res.Idx = idx
 	w := c08get(idx)
-	srv := c08server()
+	srv := c08server(idx)
 	if srv == nil {
 		res.Inconclusive = "could not start the password-protected server on a loopback port"
 		return res
@@ -249,7 +274,7 @@ func c08run(idx int) run.Result {
 	}
 	res.Key = gen.Hash64(key)
 	res.NonTrivial = len(w.Steps) >= 2
-	res.Classes = []string{fmt.Sprintf("conns=%d", w.Conns)}
+	res.Classes = []string{fmt.Sprintf("conns=%d", w.Conns), map[bool]string{false: "server=freshly-started", true: "server=password-changed-across-restart"}[c08changed(idx)]}
 	conns := make([]*sconn.Conn, w.Conns)
 	waits := make([]func(time.Duration) double.ServeResult, w.Conns)
 	for i := range conns {
@@ -391,7 +416,7 @@ func init() {
 		ID: "C08", Level: "exploration",
 		Rule: func(tier string) string {
 			l1 := map[string]int{"quick": 3, "thorough": 4}[tier]
-			return fmt.Sprintf("case = one word of requests over 1..3 lock-step scripted connections (hook H1) on a server with SetRequirePass(%q) after Start() on a loopback port; the driver delivers one request to one chosen connection and waits for its reply, so an interleaving is a word over (connection, request). Alphabet (1 connection): AUTH with each candidate of a dictionary around the password ('', null bulk, every strict prefix, password+suffix, +NUL, NUL+, case variants, CRLF inside/after, leading space, the password), AUTH with 0 and 3 arguments, two-argument forms (4 user names x wrong passwords, wrong user + right password, ''/default + right password) and 8 data commands; ALL words of length <=%d on 1 connection, ALL words of length <=4 on 2 connections and <=3 on 3 connections over the reduced alphabet {AUTH P, AUTH '', AUTH prefix, GET, PING} x connection index; then seeded random words up to length 30. Monitor = per-connection shadow automaton {unauth,auth}; violations: a handler call or non-error reply to a non-AUTH request on an unauth connection, a wrong AUTH answered non-error, the exact one-argument AUTH not answered +OK, an authorized connection refused after a failed AUTH, authorization leaking between connections. distinct = the word; non-trivial = length >= 2", c08pass, l1)
+			return fmt.Sprintf("case = one word of requests over 1..3 lock-step scripted connections (hook H1) on a server with SetRequirePass(%q) after Start() on a loopback port - in every second batch of 400 cases a server that was first started with another password, stopped, reconfigured and started again (the previous password is one more wrong candidate of the dictionary); the driver delivers one request to one chosen connection and waits for its reply, so an interleaving is a word over (connection, request). Alphabet (1 connection): AUTH with each candidate of a dictionary around the password ('', null bulk, every strict prefix, password+suffix, +NUL, NUL+, case variants, CRLF inside/after, leading space, the password), AUTH with 0 and 3 arguments, two-argument forms (4 user names x wrong passwords, wrong user + right password, ''/default + right password) and 8 data commands; ALL words of length <=%d on 1 connection, ALL words of length <=4 on 2 connections and <=3 on 3 connections over the reduced alphabet {AUTH P, AUTH '', AUTH prefix, GET, PING} x connection index; then seeded random words up to length 30. Monitor = per-connection shadow automaton {unauth,auth}; violations: a handler call or non-error reply to a non-AUTH request on an unauth connection, a wrong AUTH answered non-error, the exact one-argument AUTH not answered +OK, an authorized connection refused after a failed AUTH, authorization leaking between connections. distinct = the word; non-trivial = length >= 2", c08pass, l1)
 		},
 		Exhaustive:  func(string) bool { return false },
 		Assumptions: []string{"AUTH <''|default> <password> may be accepted or refused (the statement does not fix the configured user name); the shadow follows the reply", "QUIT before authentication is not generated"},
@@ -403,7 +428,7 @@ func init() {
 			d["sig"] = fmt.Sprintf("conns=%d", w.Conns)
 			return d
 		},
-		Chunk:         400,
+		Chunk:         c08chunk,
 		MinConclusive: 500,
 	})
 }
